@@ -245,8 +245,10 @@ pub struct Val {
     pub id: u8,
 }
 impl Clone for Val {
+    /// Like `String::clone`, which drops spare capacity, the copy may report a
+    /// smaller size than the original (the lowest bit of `heap` is dropped).
     fn clone(&self) -> Val {
-        Val { heap: self.heap, id: self.id + 16 }
+        Val { heap: self.heap & !1, id: self.id + 16 }
     }
 }
 impl Drop for Val {
@@ -446,13 +448,25 @@ pub fn build(n: usize, heaps: &[usize; NMAX], max: usize, tab: [u8; 8], cap: usi
         let e = UnhingedEntry::new(Key::new(i as u8, 8 + i as u8), Val { heap: heaps[i], id: i as u8 });
         let entry = Entry::new(e, c.seal, c.seal.get().next);
         c.current_size += entry.size;
-        c.insert_untracked(entry);
+        raw_link(&mut c, entry);
         i += 1;
     }
     unsafe {
         HASHES = 0;
     }
     c
+}
+
+/// Puts an entry into the table and links it in as most-recently-used (the two
+/// primitive steps every insertion path of the crate is made of).
+pub fn raw_link<V2>(c: &mut LruCache<Key, V2, TabBuild>, entry: Entry<Key, V2>) {
+    match c.insert_into_table(entry) {
+        Ok(ptr) => c.set_head(ptr),
+        Err(e) => {
+            std::mem::forget(e);
+            sym::assume(false); // the harness sized the table for its entries
+        }
+    }
 }
 
 /// Symbolic contents of a valid state with `n` entries.
@@ -501,37 +515,47 @@ pub fn sym_key(bound: u8) -> u8 {
 
 /// Inv I1-I4 (DESIGN.md 3.3). `bound` = maximal number of nodes walked.
 pub fn inv(c: &C, bound: usize) {
-    vblock!([C01, C02, C07, C11, C12, C13, C14, C15, C17], {
+    inv_opt(c, bound, true)
+}
+/// Without I3 (for clones of values whose copy reports a different size: the
+/// recorded sizes are copied from the source by design).
+pub fn inv_nosize(c: &C, bound: usize) {
+    inv_opt(c, bound, false)
+}
+pub fn inv_opt(c: &C, bound: usize, sizes: bool) {
+    vblock!([C01, C02, C03, C04, C05, C06, C07, C11, C12, C13, C14, C15, C17], {
         let mut cnt = 0usize;
         let mut sum = 0usize;
         let mut p = c.seal.get().prev; // LRU
         while p != c.seal {
             if cnt >= bound {
-                vassert!([C07, C12, C17], false, "I1: list longer than len() allows");
+                vassert!([C04, C05, C06, C07, C12, C14, C17], false, "I1: list longer than len() allows");
                 break;
             }
             let e = p.get();
             let k = unsafe { e.key() };
             let v = unsafe { e.value() };
-            vassert!([C02, C11], e.size == entry_size(k, v), "I3: recorded (accounted) size of an entry differs from entry_size(key, value)");
-            vblock!([C07, C17], {
+            if sizes {
+                vassert!([C01, C02, C03, C11], e.size == entry_size(k, v), "I3: recorded (accounted) size of an entry differs from entry_size(key, value)");
+            }
+            vblock!([C04, C07, C14, C17], {
                 let found = c.peek_entry(&k.k);
                 vcheck!(
                     match found {
                         Some((fk, _)) => std::ptr::eq(fk, k),
                         None => false,
                     },
-                    "[C07 C17 ] I2: a traversed entry is not the entry a lookup of its key finds",
+                    "[C04 C07 C14 C17 ] I2: a traversed entry is not the entry a lookup of its key finds",
                 );
             });
-            vassert!([C07, C12, C17], e.prev.get().next == p && e.next.get().prev == p, "I1: forward and backward links do not mirror");
+            vassert!([C05, C06, C07, C12, C14, C17], e.prev.get().next == p && e.next.get().prev == p, "I1: forward and backward links do not mirror");
             sum = sum.wrapping_add(e.size);
             cnt += 1;
             p = e.prev;
         }
-        vassert!([C07, C12, C17], c.seal.get().next.get().prev == c.seal && c.seal.get().prev.get().next == c.seal, "I1: seal links do not mirror");
-        vassert!([C02, C07, C12, C17], cnt == c.len(), "I1: number of linked entries differs from len()");
-        vassert!([C02], sum == c.current_size(), "I4: current_size differs from the sum of recorded sizes");
+        vassert!([C05, C06, C07, C12, C14, C17], c.seal.get().next.get().prev == c.seal && c.seal.get().prev.get().next == c.seal, "I1: seal links do not mirror");
+        vassert!([C02, C04, C05, C06, C07, C12, C14, C17], cnt == c.len(), "I1: number of linked entries differs from len()");
+        vassert!([C01, C02, C03], sum == c.current_size(), "I4: current_size differs from the sum of recorded sizes");
         vassert!([C01], c.current_size() <= c.max_size(), "I4: current_size exceeds max_size");
         vassert!([C02], (c.len() == 0) == (c.current_size() == 0) && c.is_empty() == (c.len() == 0), "current_size is 0 exactly when the cache is empty");
     });
@@ -549,13 +573,15 @@ pub struct Fp {
     pub max: usize,
     pub cap: usize,
     pub len: usize,
+    /// the cache struct itself, word by word (catches writes to fields the harness does not know)
+    pub raw: [u64; 10],
     #[cfg(kani)]
     pub words: (*const u8, u64, u8, u8, u8, u8, u8),
 }
 impl Fp {
     /// Field-wise comparison without slice-equality loops.
     pub fn same(&self, o: &Fp) -> bool {
-        let mut ok = self.n == o.n && self.seal == o.seal && self.cur == o.cur && self.max == o.max && self.cap == o.cap && self.len == o.len;
+        let mut ok = self.n == o.n && self.seal == o.seal && self.cur == o.cur && self.max == o.max && self.cap == o.cap && self.len == o.len && self.raw == o.raw;
         #[cfg(kani)]
         {
             ok = ok && self.words == o.words;
@@ -570,6 +596,15 @@ impl Fp {
         ok
     }
 }
+/// The bytes of the `LruCache` value itself as 64-bit words (at most 10).
+pub fn raw_words(c: &C) -> [u64; 10] {
+    let mut w = [0u64; 10];
+    let n = std::mem::size_of::<C>() / 8;
+    let p = c as *const C as *const u64;
+    macro_rules! rd { ($i:expr) => { if $i < n { w[$i] = unsafe { std::ptr::read_unaligned(p.add($i)) }; } }; }
+    rd!(0); rd!(1); rd!(2); rd!(3); rd!(4); rd!(5); rd!(6); rd!(7); rd!(8); rd!(9);
+    w
+}
 pub fn fp(c: &C, bound: usize) -> Fp {
     let a = |p: EntryPtr<Key, Val>| p.get() as *const E;
     let mut f = Fp {
@@ -581,6 +616,7 @@ pub fn fp(c: &C, bound: usize) -> Fp {
         max: c.max_size,
         cap: c.capacity(),
         len: c.len(),
+        raw: raw_words(c),
         #[cfg(kani)]
         words: c.table.model_words(),
     };
